@@ -81,6 +81,8 @@ REPLAY_CONFIGS = {
     "C07": cfg(MaxBlocks=3, MaxOps=7, SUB_S=3, Garbled="{1, 3, 5}", Acts='{"Register", "Add", "Mine", "Sub"}', Emit="TRUE"),
     "C08": cfg(MaxBlocks=3, MaxOps=6, SUB_S=3, Garbled="{1, 3}", Acts='{"Register", "Add", "Mine", "Get", "Sub"}', Emit="TRUE"),
     "C09": cfg(MaxBlocks=6, MaxOps=6, SUB_D=2, SUB_G=1, Variants="{1}", Acts='{"Register", "Add", "Mine", "Sub", "Get"}', Emit="TRUE"),
+    # behaviours with restarts between the actions
+    "C03": cfg(MaxBlocks=4, MaxOps=7, Disputes="{10, 20}", Acts='{"Register", "Add", "Mine", "Get", "Restart"}', SUB_D=30, Emit="TRUE"),
 }
 
 
@@ -125,20 +127,22 @@ def behaviour_to_scenario(hist, consts, name):
             ops += _verdicts(h.get("orc", []))
             keys = [k if k % 10 != 2 else k + 1 for k in h["keys"]]
             ops.append({"op": "mine", "txs": keys, "poll": True})
+        elif o == "restart":
+            ops += [{"op": "restart"}, {"op": "poll"}]
         elif o == "disconnect":
             return None
     real_cfg = {"S": int(consts["SUB_S"]), "D": int(consts["SUB_D"]), "G": int(consts["SUB_G"]), "cache": 6, "idx": 100, "h0": 101}
     return {"name": name, "cfg": real_cfg, "ops": ops}
 
 
-def replay_scenarios(pid, tier, seed_):
+def replay_scenarios(pid, tier, seed_, n_quick=40, n_thorough=600):
     """TLC -simulate on MC_Tower prints one REPLAY line per behaviour that reaches the bound; each becomes a scenario."""
     import json as _json
     from common import unwrap_print
     if pid not in REPLAY_CONFIGS:
         return [], {}
     consts = REPLAY_CONFIGS[pid]
-    n = 40 if tier == "quick" else 600
+    n = n_quick if tier == "quick" else n_thorough
     depth = int(consts["MaxBlocks"]) + int(consts["MaxOps"]) + 1
     wd = os.path.join("/verif/work", pid, "mcreplay")
     os.makedirs(wd, exist_ok=True)
@@ -163,6 +167,8 @@ def replay_scenarios(pid, tier, seed_):
                 sc_ += 1
             elif x["op"] == "register":
                 sc_ += 1
+            elif x["op"] == "restart":
+                sc_ += 2 if accepted else 0
             elif x["op"] == "mine":
                 sc_ += 4 * len([k for k in x["keys"] if k in accepted]) + (1 if x.get("orc") else 0)
             elif x.get("code") in ("ok",):
